@@ -58,10 +58,16 @@ for c in cases:
             obj = cls.model_validate(c["wire"])
             rep["ok"] = True
             rep["tree"] = tree(obj)
+            rep["attrs"] = {a: getattr(obj, a) for a in ("meta", "schema_") if a in getattr(cls, "__annotations__", {})
+                            or any(a in getattr(k, "__annotations__", {}) for k in cls.__mro__)}
             try:
                 rep["dump"] = obj.model_dump(by_alias=True, exclude_none=True)
             except Exception as e:  # noqa
                 rep["dump_err"] = repr(e)[:200]
+            try:
+                rep["dump_full"] = obj.model_dump(by_alias=True)
+            except Exception as e:  # noqa
+                rep["dump_full_err"] = repr(e)[:200]
             try:
                 rep["dump_plain"] = obj.model_dump(exclude_none=True)
             except Exception as e:  # noqa
